@@ -39,6 +39,8 @@ type recorder struct {
 	cur  string
 	hold bool // verdict events of the running case are kept back until the case is known to be untainted
 	held []Event
+	// prior: the last accepted logins (at most 2) of earlier cases in this child
+	prior []Spec
 }
 
 // Hold starts keeping back verdict events (viol, done); Release writes or drops them.
@@ -106,6 +108,11 @@ func (r *recorder) Observe(k string, n int64) { r.emit(Event{T: "obs", Key: k, N
 func (r *recorder) Max(k string, n int64)     { r.emit(Event{T: "max", Key: k, N: n}) }
 func (r *recorder) Inconclusive(what string)  { r.emit(Event{T: "inc", What: what}) }
 func (r *recorder) Violation(sig, what string, witness any) {
+	// the logins that were accepted (and have ended) earlier in this teamserver are part of
+	// the history a replay has to rebuild
+	if m, ok := witness.(map[string]any); ok && len(r.prior) > 0 {
+		m["after_logins"] = r.prior
+	}
 	b, err := json.Marshal(witness)
 	if err != nil {
 		b, _ = json.Marshal(map[string]string{"unmarshalable": err.Error()})
